@@ -249,7 +249,7 @@ def shape_rules(rep: Report, prog: Program) -> None:
                 for s in own_nodes(f.node):
                     if isinstance(s, ast.Assign) and any(isinstance(t, ast.Name) and t.id == a.id for t in s.targets):
                         srcs.append(s.value)
-        ok = len(srcs) == 2 and all(isinstance(s, ast.Call) and callee_last(s) == 'sorted' and any(k.arg == 'key' and '.id' in norm(k.value) for k in s.keywords) for s in srcs)
+        ok = len(srcs) == 2 and all(isinstance(s, ast.Call) and callee_last(s) == 'sorted' and any(k.arg == 'key' and ('.id' in norm(k.value) or norm(k.value) in ("attrgetter('id')", "operator.attrgetter('id')")) for k in s.keywords) for s in srcs)
         rep.ob(rule, f.fq(), 'nonterminal edges of both rules are paired in id order', f.loc(l), ok, '' if ok else 'the two lists are not both sorted by edge id before zipping')
     rep.floor('C17-D4 paired edges', int(okz), 1)
     # terminal edges of both rules are all added
